@@ -1,5 +1,5 @@
 """C06 — validate reports every corruption of a stored object."""
-import json, os, random, shutil, time
+import json, os, random, re, shutil, time
 from vlib import core, valprop, corrupt
 from vlib.core import hx
 
@@ -24,6 +24,8 @@ def known_match(kind, desc, obj_inv, detail):
             own = [p for ps in obj_inv["manifest"].values() for p in ps if p.startswith(d + "/")]
             if not own:
                 return "C06-K1"
+    if kind == "meta-to-emptydir" and re.search(r" v\d+/inventory\.json$", desc):
+        return "C06-K2"
     return None
 
 
@@ -54,6 +56,22 @@ def run(rep, tier, seed, proof_broken=False):
                 rep.count("C06-K1-no-longer-reproduces")
             lab.remove(name)
             break
+        # corpus: C06-K2, the inventory of a version directory replaced by an empty directory
+        if objs:
+            src = objs[0]
+            inv = valprop.inv_of(src)
+            name, d = lab.place(src)
+            vp = os.path.join(d, sorted(inv["versions"])[0], "inventory.json")
+            if os.path.isfile(vp):
+                os.unlink(vp); os.mkdir(vp)
+                r = lab.validate(name, True)
+                rc, out, err = valprop.cli_validate(rbin, lab.root, name, fixity=True)
+                rep.evaluations += 1
+                if r[0] == "ok" and not r[1] and rc == 0:
+                    rep.known("C06-K2", "%s/inventory.json of %s replaced by an empty directory: warnings only, exit 0" % (sorted(inv["versions"])[0], os.path.basename(src)))
+                else:
+                    rep.count("C06-K2-no-longer-reproduces")
+            lab.remove(name)
         for kind in corrupt.KINDS:
             enumerated = budget.get("all_positions") and kind in ("root-inv-byte", "ver-inv-byte", "content-change", "root-sidecar-digest", "ver-sidecar-digest")
             n = budget["per_kind"] * (8 if enumerated else 1)
